@@ -7,7 +7,8 @@ from proto import run_driver, fbits, unbits
 
 KERNEL_FILES = ["variogram/estimator.pyx"]
 ASSUMPTIONS = ["numpy's RandomState(seed).choice is replayed by the harness (the sub-sample indices are an input of the model)",
-               "remove_trend_norm_mean (trend/normalizer/mean) is C18's subject; here it is the identity",
+               "remove_trend_norm_mean (trend/normalizer/mean) is C18's subject (Model.Norm); here its use inside vario_estimate is tied to that model "
+               "by a separate correspondence stratum, the other strata use the identity",
                "permutation invariance is proved for counts/sums over the reals only when listed as discharged in the evidence; it is searched on the real API in any case"]
 
 
@@ -63,7 +64,7 @@ def correspondence(ctx):
                     emask[0] = False
             nd = None
             if rng.rand() < 0.4:
-                nd = float(rng.choice([1.0, -0.5, 1.00000001]))
+                nd = float(rng.choice([1.0, -0.5, 1.00000001, 0.0, -0.0, 1e-9]))     # incl. falsy sentinels and the atol band around 0
             samp = None
             if rng.rand() < 0.3:
                 samp = (int(rng.randint(2, P + 2)), int(rng.randint(0, 100)))
@@ -111,10 +112,12 @@ def correspondence(ctx):
             fld = np.ma.array(f, mask=fmask) if use_ma else f
             if F == 1 and rng.rand() < 0.5:
                 fld = fld[0]
+            mrep = "-"
             if emask is not None:
-                kw["mask"] = emask
+                mrep = MASK_REPRS[int(rng.randint(len(MASK_REPRS)))]     # the caller's representation; the model sees the booleans
+                kw["mask"] = _mask_as(emask, mrep)
             if nd is not None:
-                kw["no_data"] = nd
+                kw["no_data"] = int(nd) if (nd in (0.0, 1.0) and rng.rand() < 0.5) else nd
             if samp is not None:
                 kw.update(sampling_size=samp[0], sampling_seed=samp[1])
             store = []
@@ -134,6 +137,10 @@ def correspondence(ctx):
             bkey = f"bins={bmode}/latlon={latlon}/geo_scale={gname}"
             dist[bkey] = dist.get(bkey, 0) + 1
             dist[key] = dist.get(key, 0) + 1
+            if emask is not None:
+                dist["mask-representation=" + mrep] = dist.get("mask-representation=" + mrep, 0) + 1
+            if nd is not None:
+                dist[f"no_data={kw['no_data']!r}"] = dist.get(f"no_data={kw['no_data']!r}", 0) + 1
             # kept points after masking (needed to replay numpy's choice)
             allm = fmask.all(axis=0)
             if use_ma or emask is not None:
@@ -225,8 +232,14 @@ def correspondence(ctx):
             if not np.array_equal(mb, real):
                 dis.append({"what": "vario_estimate preprocessing: bin edges handed to the kernel differ from the model", "key": key,
                             "real": real.tolist(), "model": mb.tolist()})
-    return {"evaluations": len(ops), "distinct_nontrivial": len(distinct),
-            "rule": "random vario_estimate calls (masked arrays, extra mask, no_data incl. values inside the isclose band, multi-field stacks, seeded "
+    glue = normalizer_glue_correspondence(ctx, ctx.scale(160, 1600))
+    dis = glue["disagreements"] + dis
+    dist.update(glue["distribution"])
+    return {"evaluations": len(ops) + glue["evaluations"], "distinct_nontrivial": len(distinct) + glue["distinct_nontrivial"],
+            "rule": "vario_estimate(normalizer in 6 classes, trend, mean) with values on / below / just inside the open domain bound: the field handed "
+                    "to the kernel equals Model.Norm.removeTNM cell by cell (NaN pattern exact, values 1e-12); "
+                    "random vario_estimate calls (masked arrays, extra mask in 12 representations (bool / int / uint / float arrays, lists, tuples), "
+                    "no_data incl. int / float zero, -0.0 and values inside the isclose band, multi-field stacks, seeded "
                     "sub-sampling, directions, bandwidth, lat-lon with four geo_scales, explicit bin_edges or bin_edges=None with bin_no / max_dist "
                     "given or not); the arguments the glue hands to the kernel wrappers "
                     "(point selection and order, NaN placement, normalised directions, separate_dirs flag, bandwidth default, converted bins) "
@@ -240,6 +253,284 @@ def close(a, b, tol=1e-10):
     return a.shape == b.shape and np.allclose(a, b, rtol=tol, atol=tol, equal_nan=True)
 
 
+def normalizer_glue_correspondence(ctx, n):
+    """tie B for the trend / normalizer / mean preprocessing INSIDE vario_estimate: the field handed to the kernel vs
+    Model.Norm.removeTNM (normalize(field - trend) - mean, out-of-domain -> NaN) cell by cell, with values on / below / just above
+    the open domain bound of the range-limited normalizers"""
+    import gstools as gs
+    rng = np.random.RandomState(ctx.seed + 9393)
+    kinds = ["BoxCox", "LogNormal", "BoxCoxShift", "YeoJohnson", "Modulus", "Manly", "BoxCox", "BoxCoxShift"]
+    ops, meta, dist = [], [], {}
+    with warnings.catch_warnings():
+        warnings.simplefilter("ignore")
+        for t in range(n):
+            kind = kinds[t % len(kinds)]
+            lam = float(rng.choice([0.0, 0.25, 0.5, 1.0, 1.5, 2.0, -0.5]))
+            shift = float(rng.choice([0.0, 0.5, 2.0, -1.0]))
+            cls = getattr(gs.normalizer, kind)
+            if kind == "LogNormal":
+                nz, lam, shift = cls(), 1.0, 0.0
+            elif kind == "BoxCoxShift":
+                nz = cls(lmbda=lam, shift=shift)
+            else:
+                nz, shift = cls(lmbda=lam), 0.0
+            bound = -shift if kind == "BoxCoxShift" else 0.0
+            limited = kind in ("BoxCox", "LogNormal", "BoxCoxShift")
+            dim = int(rng.randint(1, 4))
+            P = int(rng.randint(3, 12))
+            F = int(rng.randint(1, 3))
+            pos = rng.randn(dim, P) * 2
+            raw = bound + rng.randint(1, 40, size=(F, P)) / 8.0 if limited else rng.randint(-16, 17, size=(F, P)) / 8.0
+            r = rng.rand(F, P)
+            raw[r < 0.2] = bound                                       # on the bound
+            raw[(r >= 0.2) & (r < 0.3)] = bound - 0.25                 # below
+            raw[(r >= 0.3) & (r < 0.35)] = np.nextafter(bound, np.inf)  # the first double inside
+            raw[(r >= 0.35) & (r < 0.4)] = np.nan
+            tr, trv = None, np.zeros(P)
+            q = rng.rand()
+            if q < 0.3:
+                tr = float(rng.choice([3.0, -2.0, 0.5])); trv = np.full(P, tr)
+            elif q < 0.5:
+                a = rng.uniform(-0.5, 0.5, size=dim)
+                tr = (lambda *x, a=a: 5.0 + sum(ai * xi for ai, xi in zip(a, x)))
+                trv = np.asarray(tr(*pos), dtype=float)
+            fld = raw + trv
+            mean = float(rng.choice([0.0, 0.4, -1.5]))
+            store = []
+            try:
+                with capture(store):
+                    gs.vario_estimate(pos, fld if F > 1 else fld[0], np.array([0.0, 1.0, 3.0, 9.0]), normalizer=nz, trend=tr, mean=mean)
+            except Exception as e:
+                dist["norm-glue:rejected:" + type(e).__name__] = dist.get("norm-glue:rejected:" + type(e).__name__, 0) + 1
+                continue
+            cf = store[0][1]
+            key = f"norm-glue/{kind}/trend={'none' if tr is None else 'callable' if callable(tr) else 'const'}/mean={mean != 0.0}"
+            dist[key] = dist.get(key, 0) + 1
+            ops.append(dict(op="norm_pipeline", kind=kind, lmbda=fbits([lam])[0], shift=fbits([shift])[0], raw=fbits(fld.ravel()),
+                            mean=fbits(np.full(F * P, mean)), trend=fbits(np.tile(trv, F))))
+            meta.append((key, fld, cf, repr(nz)))
+    res = run_driver(ops)
+    dis, distinct = [], set()
+    for o, (key, fld, cf, nzr), r in zip(ops, meta, res):
+        if isinstance(r, dict) and "error" in r:
+            dis.append({"what": "driver error " + r["error"], "op": o["op"]})
+            continue
+        distinct.add(key)
+        model = unbits(r[2]).reshape(fld.shape)
+        ok = cf.shape == model.shape and np.array_equal(np.isnan(cf), np.isnan(model)) and \
+            np.allclose(cf, model, rtol=1e-12, atol=1e-14, equal_nan=True)
+        if not ok:
+            dis.append({"what": "vario_estimate preprocessing: the field handed to the kernel differs from normalize(field - trend) - mean of the model "
+                                "(values on / below the open domain bound -> NaN)", "key": key, "normalizer": nzr, "field": fld.tolist(),
+                        "real": np.asarray(cf).tolist(), "model": model.tolist()})
+    return {"evaluations": len(ops), "distinct_nontrivial": len(distinct), "disagreements": dis[:4], "distribution": dist}
+
+
+MASK_REPRS = ["bool-array", "bool-list", "int8", "int64", "int32", "int-list", "uint8", "float64", "float32", "float-list", "bool-tuple",
+              "masked-bool-array"]
+
+
+def _mask_as(m, rep):
+    """the boolean point mask `m` (any shape) in one of the representations a caller may hold it in"""
+    if rep == "bool-array":
+        return m.copy()
+    if rep == "bool-list":
+        return m.tolist()
+    if rep == "bool-tuple":
+        return tuple(m.tolist()) if m.ndim == 1 else tuple(tuple(r) for r in m.reshape(m.shape[0], -1).tolist()) if m.ndim == 2 else m.tolist()
+    if rep == "int-list":
+        return m.astype(int).tolist()
+    if rep == "float-list":
+        return m.astype(float).tolist()
+    if rep == "masked-bool-array":
+        return np.ma.array(m.copy(), mask=np.zeros(m.shape, bool))
+    return m.astype({"int8": np.int8, "int64": np.int64, "int32": np.int32, "uint8": np.uint8, "float64": np.float64, "float32": np.float32}[rep])
+
+
+def mask_repr_search(ctx, n, viol):
+    """`mask=` in every representation (bool / int8 / int32 / int64 / uint8 / float arrays, lists and tuples of bools / ints / floats),
+    for unstructured point sets and structured stacks of fields (mask with the shape of the grid), plain and masked-array fields with
+    different masks per field, isotropic and directional: the estimate must be the brute-force estimate on the point list with the
+    masked points removed.  The documented representations (bool array / list) must work; another one may be rejected with an
+    exception, never answered with something else."""
+    import gstools as gs
+    rng = np.random.RandomState(ctx.seed + 9191)
+    ev = 0
+    for t in range(n):
+        rep = MASK_REPRS[t % len(MASK_REPRS)]
+        est = str(rng.choice(["matheron", "cressie"]))
+        e = est[0]
+        F = int(rng.randint(1, 4))
+        structured = (t // len(MASK_REPRS)) % 3 == 2
+        if structured:
+            dim = int(rng.randint(2, 4))
+            ls = [int(rng.randint(2, 5)) for _ in range(dim)]
+            if len(set(ls)) == 1:
+                ls[0] += 1                        # equal axis lengths: the layout guess of format_struct_pos_shape (finding M1) is not the subject here
+            axes = [np.sort(rng.uniform(0, 4, size=k)) for k in ls]
+            pos = np.array(np.meshgrid(*axes, indexing="ij")).reshape(dim, -1)
+            gshape = tuple(ls)
+        else:
+            dim = int(rng.randint(1, 4))
+            P = int(rng.randint(5, 18))
+            pos = rng.randn(dim, P) * 2
+            gshape = (P,)
+        P = pos.shape[1]
+        f = rng.randint(-8, 9, size=(F, P)) / 4.0
+        m = rng.rand(P) < float(rng.choice([0.15, 0.35, 0.6]))
+        r = rng.rand()
+        if r < 0.08:
+            m[:] = False
+        elif r < 0.14:
+            m[:] = True
+        elif r < 0.3:
+            m[-1] = True; m[0] = False        # the last point masked, the first kept
+        fm = np.zeros((F, P), bool)
+        use_ma = rng.rand() < 0.4
+        if use_ma:
+            fm = rng.rand(F, P) < 0.2
+        ref = f.copy(); ref[fm] = np.nan
+        keep = ~m
+        bins = np.array([0.0, 0.7, 1.5, 2.5, 4.0, 7.0]) + float(rng.choice([0.0, 0.3]))
+        fshape = (F,) + gshape if (F > 1 or rng.rand() < 0.5) else gshape
+        data_under = f.copy(); data_under[fm] = float(rng.choice([-9999.0, 0.0, 77.0]))
+        fld = data_under.reshape(fshape)
+        if use_ma:
+            fld = np.ma.array(fld, mask=fm.reshape(fshape))
+        marg = _mask_as(m.reshape(gshape), rep)
+        directional = dim > 1 and rng.rand() < 0.35
+        kw = dict(estimator=est, return_counts=True)
+        if structured:
+            kw["mesh_type"] = "structured"
+        if directional:
+            d = np.eye(dim)[rng.permutation(dim)[:int(rng.randint(1, dim + 1))]]
+            kw.update(direction=d, angles_tol=np.pi / 8)
+        desc = dict(stratum="mask-representation", representation=rep, structured=structured, pos=pos.tolist(), field=data_under.tolist(),
+                    field_masks=fm.tolist() if use_ma else None, mask=m.astype(int).tolist(), bins=bins.tolist(), estimator=est,
+                    direction=kw["direction"].tolist() if directional else None, field_shape=list(fshape))
+        documented = rep in ("bool-array", "bool-list")
+        try:
+            with warnings.catch_warnings():
+                warnings.simplefilter("ignore")
+                got = gs.vario_estimate(axes if structured else pos, fld, bins, mask=marg, **kw)
+        except Exception as ex:
+            ev += 1
+            if documented:
+                viol.append({"key": "removal:mask-argument:" + rep + ":exception", "what": f"a documented mask representation is rejected: {type(ex).__name__}: {ex}",
+                             "case": desc})
+            continue
+        ev += 1
+        if m.all() or (use_ma and (fm.all(axis=0) | m).all() and False):
+            want_g = np.zeros(len(bins) - 1); want_c = np.zeros(len(bins) - 1, dtype=int)
+            g, c = np.asarray(got[1], float), np.asarray(got[2])
+            ok = g.shape[-1:] == want_g.shape and not np.any(g) and not np.any(c)
+        else:
+            if directional:
+                want_g, want_c = brute.directional(ref[:, keep], bins, pos[:, keep], d, np.pi / 8, -1.0, e)
+                g, c = np.atleast_2d(got[1]), np.atleast_2d(got[2])
+                if len(d) >= 2:
+                    zg, zc = brute.directional(ref[:, keep], bins, pos[:, keep], d, np.pi / 8, -1.0, e, zero_first_only=True)
+                    if not (close(g, want_g) and np.array_equal(c, want_c)) and close(g, zg) and np.array_equal(c, zc):
+                        continue          # finding D15 (zero-length pairs), reported by the directed corpus
+            else:
+                want_g, want_c = brute.unstructured(ref[:, keep], bins, pos[:, keep], e, "e")
+                g, c = got[1], got[2]
+            ok = close(g, want_g) and np.array_equal(c, want_c)
+        if not ok:
+            viol.append({"key": "removal:mask-argument:" + rep, "what": "vario_estimate(mask=...) is not the estimate on the point list with the masked points "
+                         "removed (mask given as " + rep + ")", "case": desc,
+                         "got": [np.asarray(g).tolist(), np.asarray(c).tolist()], "want": [np.asarray(want_g).tolist(), np.asarray(want_c).tolist()]})
+    return ev
+
+
+def domain_bound_search(ctx, n, viol):
+    """range-limited normalizers in vario_estimate(normalizer=...): values exactly ON the bound of the open domain (0 for BoxCox / LogNormal,
+    -shift for BoxCoxShift), strictly outside it, and NaN must all be treated like removed points: the estimate equals the brute-force
+    estimate of the hand-transformed values ((x^l - 1) / l, log x, ((x + s)^l - 1) / l) on the remaining stations; with a trend the
+    domain test applies to field - trend."""
+    import gstools as gs
+    rng = np.random.RandomState(ctx.seed + 9292)
+    ev = 0
+    with warnings.catch_warnings():
+        warnings.simplefilter("ignore")
+        for t in range(n):
+            which = ["BoxCox", "LogNormal", "BoxCoxShift", "BoxCox0", "BoxCoxShift0"][t % 5]
+            lam = float(rng.choice([0.25, 0.5, 1.0, 1.5, -0.5]))
+            shift = float(rng.choice([0.5, 2.0, -1.0]))
+            if which == "BoxCox":
+                nz, bound, tf = gs.normalizer.BoxCox(lmbda=lam), 0.0, (lambda x: (x ** lam - 1.0) / lam)
+            elif which == "BoxCox0":
+                nz, bound, tf = gs.normalizer.BoxCox(lmbda=0.0), 0.0, np.log
+            elif which == "LogNormal":
+                nz, bound, tf = gs.normalizer.LogNormal(), 0.0, np.log
+            elif which == "BoxCoxShift":
+                nz, bound, tf = gs.normalizer.BoxCoxShift(lmbda=lam, shift=shift), -shift, (lambda x: ((x + shift) ** lam - 1.0) / lam)
+            else:
+                nz, bound, tf = gs.normalizer.BoxCoxShift(lmbda=0.0, shift=shift), -shift, (lambda x: np.log(x + shift))
+            dim = int(rng.randint(1, 4))
+            P = int(rng.randint(6, 20))
+            F = int(rng.randint(1, 3))
+            pos = rng.randn(dim, P) * 2
+            raw = bound + rng.randint(1, 40, size=(F, P)) / 8.0           # inside the domain
+            on = rng.rand(F, P) < 0.25
+            raw[on] = bound                                                 # exactly on the open bound
+            out = (rng.rand(F, P) < 0.1) & ~on
+            if t % 3 == 0:
+                raw[out] = bound - rng.randint(1, 9, size=int(out.sum())) / 4.0     # strictly outside
+            else:
+                out[:] = False
+            nanc = (rng.rand(F, P) < 0.1) & ~on & ~out if t % 4 == 1 else np.zeros((F, P), bool)
+            raw[nanc] = np.nan
+            # trend: field = raw + trend(pos); the sum must come back exactly (0 + t - t == 0 always; otherwise dyadic constants)
+            tr, trv = None, np.zeros(P)
+            r = rng.rand()
+            if r < 0.25:
+                tr = float(rng.choice([3.0, -2.0, 0.5])); trv = np.full(P, tr)
+            elif r < 0.4 and bound == 0.0:
+                a = rng.uniform(-0.5, 0.5, size=dim)
+                tr = (lambda *x, a=a: 5.0 + sum(ai * xi for ai, xi in zip(a, x)))
+                trv = tr(*pos)
+            fld = raw + trv
+            det = fld - trv
+            if not np.array_equal(np.isnan(det) | (det == raw), np.ones((F, P), bool)):
+                on = on & (det == bound)                                   # rounding moved a value: keep the oracle honest
+            mean = float(rng.choice([0.0, 0.0, 0.4]))
+            est = str(rng.choice(["matheron", "cressie"]))
+            bins = np.array([0.0, 0.7, 1.5, 2.5, 4.0, 7.0]) + float(rng.choice([0.0, 0.3]))
+            valid = ~np.isnan(det) & (det > bound)
+            ref = np.full((F, P), np.nan)
+            ref[valid] = tf(det[valid]) - mean
+            desc = dict(stratum="normalizer-domain-bound", normalizer=repr(nz), bound=bound, pos=pos.tolist(), field=fld.tolist(),
+                        trend=None if tr is None else (tr if not callable(tr) else "linear"), mean=mean, bins=bins.tolist(), estimator=est,
+                        on_bound=int((det == bound).sum()), outside=int((det < bound).sum()), nan=int(np.isnan(det).sum()))
+            try:
+                got = gs.vario_estimate(pos, fld if F > 1 else fld[0], bins, estimator=est, return_counts=True, normalizer=nz,
+                                        trend=tr, mean=mean)
+            except Exception as ex:
+                viol.append({"key": "removal:normalizer-domain:exception", "what": f"{type(ex).__name__}: {ex}", "case": desc})
+                continue
+            ev += 1
+            want_g, want_c = brute.unstructured(ref, bins, pos, est[0], "e")
+            if not (close(got[1], want_g, 1e-9) and np.array_equal(got[2], want_c)):
+                cls = "on-bound" if (det == bound).any() else "outside" if (det < bound).any() else "inside"
+                viol.append({"key": f"removal:normalizer-domain:{cls}:{type(nz).__name__}",
+                             "what": "vario_estimate(normalizer=range-limited): values on / outside the open domain bound (after removing the trend) are "
+                                     "not treated like removed points (brute force of the hand-transformed remaining values)", "case": desc,
+                             "got": [np.asarray(got[1]).tolist(), np.asarray(got[2]).tolist()], "want": [want_g.tolist(), want_c.tolist()]})
+            # metamorphic twin: the same call on the point list without the stations that are invalid in every field
+            gone = ~valid.any(axis=0)
+            if gone.any() and not gone.all():
+                k = ~gone
+                tr2 = tr
+                red = gs.vario_estimate(pos[:, k], (fld[:, k] if F > 1 else fld[0, k]), bins, estimator=est, return_counts=True, normalizer=nz,
+                                        trend=tr2, mean=mean)
+                ev += 1
+                if not (close(got[1], red[1], 1e-9) and np.array_equal(got[2], red[2])):
+                    viol.append({"key": f"removal:normalizer-domain:stations-removed:{type(nz).__name__}",
+                                 "what": "estimate with out-of-domain stations differs from the estimate without those stations", "case": desc})
+    return ev
+
+
 def search(ctx, deep=False):
     """metamorphic relations on the real API"""
     import gstools as gs
@@ -247,6 +538,8 @@ def search(ctx, deep=False):
     rng = np.random.RandomState(ctx.seed + 99)
     N = ctx.scale(100, 600) * (3 if deep else 1)
     ev, viol = C08.directed(ctx)
+    ev += mask_repr_search(ctx, ctx.scale(144, 720) * (3 if deep else 1), viol)
+    ev += domain_bound_search(ctx, ctx.scale(100, 500) * (3 if deep else 1), viol)
     with warnings.catch_warnings():
         warnings.simplefilter("ignore")
         for t in range(N):
@@ -443,8 +736,10 @@ def search(ctx, deep=False):
         seen[v["key"]] = seen.get(v["key"], 0) + 1
         if seen[v["key"]] <= 2:
             out.append(v)
-    return {"evaluations": ev, "violations": out[:8],
-            "summary": "metamorphic relations on vario_estimate: permutation, rigid motion, shift, scale, NaN/masked/mask/no_data as removal, "
+    return {"evaluations": ev, "violations": out[:10],
+            "summary": "mask= in 12 representations (bool / int / uint / float arrays, lists, tuples; unstructured and structured stacks, masked-array "
+                       "fields) and values on / outside the open domain bound of BoxCox / LogNormal / BoxCoxShift (with trend and mean) against brute force "
+                       "on the remaining points; metamorphic relations on vario_estimate: permutation, rigid motion, shift, scale, NaN/masked/mask/no_data as removal, "
                        "seeded sampling, structured vs point list, rotating directions, geo_scale units with explicit edges and with "
                        "bin_edges=None x {bin_no given / None} x {max_dist given / None} (centres scaled, variogram unchanged, equal to explicit "
                        "edges, brute-force great-circle binning); automatic metric bins equal linspace(0, max_dist or box diameter / 3, bin_no or sturges + 1)"}
